@@ -144,6 +144,8 @@ RAISES: Dict[str, tuple] = {
 }
 
 # Names that never raise for the argument types this package passes (documented total).
+PURE_STR_METHODS = {"startswith", "endswith", "lower", "upper", "strip", "lstrip", "rstrip", "isdigit", "isalpha", "replace", "removeprefix", "removesuffix", "title", "capitalize", "zfill", "count", "find", "rfind"}
+
 TOTAL_PREFIXES = (
     "logging.",
     "logger.",
@@ -374,6 +376,12 @@ class ExtModel:
         if handler is not None:
             return handler(interp, st, recv, args, kwargs, node)
         short = name.split(".")[-1]
+        # pure methods of a constant string with constant arguments: folded
+        if isinstance(recv, Const) and isinstance(recv.value, str) and not kwargs and short in PURE_STR_METHODS and all(isinstance(a, Const) and isinstance(a.value, (str, int, tuple, type(None))) for a in args):
+            try:
+                return [("val", st, Const(getattr(recv.value, short)(*[a.value for a in args])))]
+            except (ValueError, TypeError, IndexError):
+                pass
         if name.startswith("builtins."):
             bname = name[9:]
             obj = getattr(builtins, bname, None)
@@ -464,6 +472,11 @@ class ExtModel:
         a = args[0]
         if isinstance(a, Const) and isinstance(a.value, (int, bool, float)):
             return [("val", st, Const(int(a.value)))]
+        if isinstance(a, Const) and isinstance(a.value, str) and len(args) == 1:
+            try:
+                return [("val", st, Const(int(a.value)))]
+            except ValueError:
+                return [self._raise(interp, st, ValueError, node, f"int({a.value!r})")]
         if isinstance(a, EnumMemV):
             return [("val", st, a)]
         if self.is_intlike(interp, st, a):
@@ -585,11 +598,19 @@ class ExtModel:
     def b_list(self, interp, st, args, kwargs, node):
         if args and isinstance(args[0], (TupleV, ListV)) and getattr(args[0], "items", None) is not None:
             return [("val", st, ListV(args[0].items, label=f"list:{self._site(interp, st, node)}"))]
+        if args:
+            exact = interp._exact_items(args[0])
+            if exact is not None:
+                return [("val", st, ListV(exact, label=f"list:{self._site(interp, st, node)}"))]
         return [("val", st, ListV(None, label=f"list:{self._site(interp, st, node)}"))]
 
     def b_tuple(self, interp, st, args, kwargs, node):
         if args and isinstance(args[0], (TupleV, ListV)) and getattr(args[0], "items", None) is not None:
             return [("val", st, TupleV(args[0].items))]
+        if args:
+            exact = interp._exact_items(args[0])
+            if exact is not None:
+                return [("val", st, TupleV(exact))]
         return [("val", st, Unknown("tuple", label=f"tuple:{self._site(interp, st, node)}"))]
 
     def b_all(self, interp, st, args, kwargs, node):
@@ -917,6 +938,25 @@ class ExtModel:
                 outs.append(self._raise(interp, st.copy(), TypeError, node, f"{ta} + {tb}"))
             elif not ok and (getattr(a, "nullable", False) or getattr(b, "nullable", False)):
                 outs.append(self._raise(interp, st.copy(), TypeError, node, f"operand of + may be None"))
+        if op == "Add" and isinstance(a, ListV) and isinstance(b, ListV):
+            # list concatenation: item-wise when both are known, else a list of the joined element description
+            if a.items is not None and b.items is not None:
+                outs.append(("val", st, ListV(a.items + b.items, label=f"cat:{self._site(interp, st, node)}")))
+                return outs
+            ea = a.elem if a.items is None else (a.items[0] if len(a.items) == 1 else None)
+            eb = b.elem if b.items is None else (b.items[0] if len(b.items) == 1 else None)
+            if a.items is not None and len(a.items) > 1:
+                ea = a.items[0]
+                for x in a.items[1:]:
+                    ea = self._join_elem(ea, x)
+            if b.items is not None and len(b.items) > 1:
+                eb = b.items[0]
+                for x in b.items[1:]:
+                    eb = self._join_elem(eb, x)
+            cat = ListV(None, elem=self._join_elem(ea, eb), label=f"cat:{self._site(interp, st, node)}")
+            cat.nonempty = bool(getattr(a, "nonempty", False) or getattr(b, "nonempty", False) or (a.items or b.items))
+            outs.append(("val", st, cat))
+            return outs
         ty = ta if ta == tb or tb in numeric and ta in numeric else (ta if ta != "?" else tb)
         if ta in numeric and tb == "float" or ta == "float":
             ty = "float"
@@ -962,6 +1002,8 @@ class ExtModel:
                 return "?"
 
         lo, hi = lit(node.slice.lower), lit(node.slice.upper)
+        if isinstance(base, Const) and isinstance(base.value, (str, tuple, bytes)) and lo != "?" and hi != "?" and node.slice.step is None:
+            return Const(base.value[lo:hi])
         if isinstance(base, (TupleV, ListV)) and getattr(base, "items", None) is not None and lo != "?" and hi != "?" and node.slice.step is None:
             items = base.items[lo:hi]
             return TupleV(items) if isinstance(base, TupleV) else ListV(items, label=f"slice:{self._site(interp, st, node)}:{base.key()!r}")
@@ -976,10 +1018,18 @@ class ExtModel:
                 minlen = min(hi, m)
             elif isinstance(lo, int) and lo >= 0 and hi is None:
                 minlen = max(0, m - lo)
+        # [-n:] / [:n] of a sequence known to hold at least n elements has exactly n
+        exact = None
+        if node.slice.step is None and tag in ("list", "tuple"):
+            if isinstance(lo, int) and lo < 0 and hi is None and minlen == -lo:
+                exact = -lo
+            elif lo is None and isinstance(hi, int) and hi >= 0 and minlen == hi:
+                exact = hi
         if tag == "list":
             res = ListV(None, elem=getattr(base, "elem", None), label=f"slice:{self._site(interp, st, node)}:{base.key()!r}")
             res.minlen = minlen
             res.nonempty = minlen > 0
+            res.exactlen = exact
             return res
         res = Unknown(tag if tag != "?" else None, label=f"slice:{self._site(interp, st, node)}:{base.key()!r}")
         res.minlen = minlen
@@ -1045,6 +1095,8 @@ class ExtModel:
     def known_arity(self, interp, st, val: V) -> Optional[int]:
         if isinstance(val, Const) and isinstance(val.value, (tuple, list, str)):
             return len(val.value)
+        if getattr(val, "exactlen", None) is not None:
+            return val.exactlen
         ty = interp.ty_of(val)
         if ty == "fwid":
             return 2
